@@ -200,6 +200,26 @@ class Compare(Expression):
         self._rhs = rhs
 
     def write(self, scope: VhdlScope):
+        # numeric_std compares an unsigned vector with a NATURAL; a negative
+        # literal is outside that subtype, the result is known
+        Op = Compare.Operator
+        for vec, lit, flipped in (
+            (self._lhs, self._rhs, False),
+            (self._rhs, self._lhs, True),
+        ):
+            if (
+                isinstance(lit.result, int)
+                and not isinstance(lit.result, bool)
+                and lit.result < 0
+                and isinstance(TypeQualifier.decay(vec.result), Unsigned)
+            ):
+                cmp = self._op
+                if flipped:
+                    cmp = {Op.LT: Op.GT, Op.GT: Op.LT, Op.LE: Op.GE, Op.GE: Op.LE}.get(
+                        cmp, cmp
+                    )
+                return "true" if cmp in (Op.NE, Op.GT, Op.GE) else "false"
+
         op = Compare.operator_string[self._op]
 
         return f"({self._lhs.write(scope)} {op} {self._rhs.write(scope)})"
@@ -290,6 +310,18 @@ class BinOp(Expression):
 
             if isinstance(TypeQualifier.decay(self._rhs.result), BitVector):
                 self._rhs.result = self._rhs.result.bitvector
+
+        if self._op in (BinOp.Operator.ADD, BinOp.Operator.SUB):
+            # numeric_std adds an unsigned vector and a NATURAL; a negative int operand
+            # is emitted as its value modulo 2**width (the result wraps at that width anyway)
+            for lit, vec in ((self._lhs, self._rhs), (self._rhs, self._lhs)):
+                if (
+                    isinstance(lit.result, int)
+                    and not isinstance(lit.result, bool)
+                    and lit.result < 0
+                    and isinstance(TypeQualifier.decay(vec.result), Unsigned)
+                ):
+                    lit.result = lit.result % 2 ** TypeQualifier.decay(vec.result).width
 
         op = BinOp.operator_string[self._op]
         return f"({self._lhs.write(scope)}) {op} ({self._rhs.write(scope)})"
